@@ -108,6 +108,7 @@ func (a *Agent) TeamserverTaskPrepare(Command string, Console func(AgentID strin
 				a.JobMtx.Lock()
 				var Jobs = len(a.JobQueue)
 				a.JobQueue = nil
+				a.Pivots.QueuedAtUnlink = 0
 				a.JobMtx.Unlock()
 
 				if Jobs > 0 {
@@ -5290,6 +5291,9 @@ func (a *Agent) TaskDispatch(RequestID uint32, CommandID uint32, Parser *parser.
 										DemonInfo.Pivots.Parent = a
 
 										a.Pivots.Links = append(a.Pivots.Links, DemonInfo)
+
+										// tasks queued while it had no link go down the new one
+										DemonInfo.PivotFlushUnlinked()
 
 										teamserver.AgentUpdate(DemonInfo)
 										teamserver.AgentUpdate(a)
